@@ -282,7 +282,7 @@ def run_block(case, res):
     base = rb.oid_str(BASE)
     strategies = case["strategies"]
     if case["driver"] == "sync":
-        w = drivers.SyncWorld(cfg, sc, timeout=0.25, max_repetitions=max_rep or 3)
+        w = drivers.SyncWorld(cfg, sc, timeout=4.0, max_repetitions=max_rep or 3)
         try:
             for devs in strategies:
                 sc.arm(method, max_rep, devs)
@@ -312,7 +312,7 @@ def run_block(case, res):
                     out = drivers.Outcome("exc", exc=e)
                 evaluate(res, case, cfg, devs, sc, got, out)
 
-        o, reqs, errs = drivers.run_async(cfg, sc, client, timeout=0.25, max_repetitions=max_rep or 3)
+        o, reqs, errs = drivers.run_async(cfg, sc, client, timeout=4.0, max_repetitions=max_rep or 3)
         if errs:
             res["machinery"].append("agent errors %s" % errs[:2])
         if o.kind != "ok":
@@ -332,6 +332,10 @@ def evaluate(res, case, cfg, devs, sc, got, out):
         else:
             bad_item = x
     end = end_kind(out)
+    if end == "runaway" and len(sc.requests) <= MAX_REQUESTS and not (out.exc is not None and "too many items" in str(out.exc)):
+        # a time-out although the scripted agent answered every request: the host stalled, not the walk
+        res["machinery"].append("spurious time-out after %d requests (host overloaded?) for deviations %s" % (len(sc.requests), devs))
+        return
     res.outcome(end.split(":")[0])
     prob = "yielded a non-pair item %r" % (bad_item,) if bad_item is not None else judge_transcript(case["method"], sc.requests, sc.replies, yielded, end)
     if prob:
